@@ -87,7 +87,7 @@ Fixpoint scan (ts : list trial) (brs : list bracket) (bi : nat) : choice :=
 Definition add_entry (r : nat) (e : entry) (br : bracket) : bracket :=
   {| bnum := bnum br; rounds := upd_nth r (fun l => l ++ [e]) (rounds br) |}.
 
-(* what the trial is told: label (as in the pinned source: the sweep position), round, epochs, initial epoch, parent, true bracket *)
+(* what the trial is told: label (tuner/bracket: the bracket being filled), round, epochs, initial epoch, parent, true bracket *)
 Record hinfo := { i_label : nat; i_bracket : nat; i_round : nat; i_epochs : Z; i_initial : Z; i_parent : option nat }.
 
 Variable mk_payload : hinfo -> V.     (* values: a fresh sample or the parent's values, plus the tuner/* entries *)
@@ -101,12 +101,12 @@ Definition hpopulate (s : hstate) (ts : list trial) (ongoing_nonempty : bool) (i
       let b := match nth_error brs bi with Some br => bnum br | None => O end in
       ({| brackets := upd_nth bi (add_entry 0 {| e_past := None; e_id := id |}) brs;
           cur_bracket := cur_bracket s; cur_iter := cur_iter s; archive := arch |}, RUNNING,
-       mk_payload {| i_label := cur_bracket s; i_bracket := b; i_round := 0; i_epochs := epochs b 0; i_initial := 0; i_parent := None |})
+       mk_payload {| i_label := b; i_bracket := b; i_round := 0; i_epochs := epochs b 0; i_initial := 0; i_parent := None |})
   | CPromote bi r q =>
       let b := match nth_error brs bi with Some br => bnum br | None => O end in
       ({| brackets := upd_nth bi (add_entry r {| e_past := Some q; e_id := id |}) brs;
           cur_bracket := cur_bracket s; cur_iter := cur_iter s; archive := arch |}, RUNNING,
-       mk_payload {| i_label := cur_bracket s; i_bracket := b; i_round := r; i_epochs := epochs b r; i_initial := epochs b (r - 1); i_parent := Some q |})
+       mk_payload {| i_label := b; i_bracket := b; i_round := r; i_epochs := epochs b r; i_initial := epochs b (r - 1); i_parent := Some q |})
   | CNone =>
       if Nat.eqb (cur_bracket s) 0 && match iterations h with Some n => Nat.eqb (S (cur_iter s)) n | None => false end then
         ({| brackets := brs; cur_bracket := cur_bracket s; cur_iter := cur_iter s; archive := arch |},
